@@ -151,7 +151,7 @@ typename std::vector<std::pair<CoordType, ValueType>>
 KDTree<CoordType, ValueType>::within(
     const CoordType& low, const CoordType& high) const {
   if (this->root == nullptr) {
-    throw std::out_of_range("no such item");
+    return {};
   }
 
   std::deque<Node*> level_nodes;
